@@ -852,3 +852,135 @@ func c13r9(rc *core.RC) {
 		}
 	}
 }
+
+// ---- C13.R10 compile-time indent levels of container programs ----
+
+// The indent an opcode carries (Opcode.Indent) is the compile context's level at the moment the opcode is made. In the
+// programs of slices, arrays and maps only the element/value program sits one level below the container's brackets;
+// the header, the end, the element and key bookkeeping opcodes and, for maps, the key program are made at the
+// container's own level. The interpreters indent the first member of an unordered map by the first key opcode's
+// level and every later member by the OpMapKey opcode's level: they must be the same level.
+func c13r10(rc *core.RC) {
+	p := rc.P
+	n := 0
+	for _, fd := range p.Funcs("encoder") {
+		if fd.Body == nil || fd.Recv == nil || fd.Name.Name != "ToOpcode" {
+			continue
+		}
+		recv := core.RecvString(fd.Recv.List[0].Type)
+		if !strings.Contains(recv, "SliceCode") && !strings.Contains(recv, "ArrayCode") && !strings.Contains(recv, "MapCode") {
+			continue
+		}
+		info := p.Info(fd)
+		fn := p.FuncName(fd)
+		rc.Touch(fn)
+		var ctx types.Object
+		for _, f := range fd.Type.Params.List {
+			for _, nm := range f.Names {
+				ctx = info.Defs[nm]
+			}
+		}
+		level := 0
+		undecided := false
+		levels := map[string]int{}
+		at := map[string]token.Pos{}
+		names := map[string]string{}
+		for _, st := range fd.Body.List {
+			// nested control flow that moves the level is outside the modelled form
+			nested := false
+			ast.Inspect(st, func(m ast.Node) bool {
+				switch m.(type) {
+				case *ast.IfStmt, *ast.ForStmt, *ast.RangeStmt, *ast.SwitchStmt, *ast.FuncLit:
+					ast.Inspect(m, func(k ast.Node) bool {
+						if c, ok := k.(*ast.CallExpr); ok {
+							if sel, isSel := c.Fun.(*ast.SelectorExpr); isSel && (sel.Sel.Name == "incIndent" || sel.Sel.Name == "decIndent") {
+								nested = true
+							}
+						}
+						return true
+					})
+				}
+				return true
+			})
+			if nested {
+				undecided = true
+				break
+			}
+			ast.Inspect(st, func(m ast.Node) bool {
+				c, ok := m.(*ast.CallExpr)
+				if !ok {
+					return true
+				}
+				sel, isSel := c.Fun.(*ast.SelectorExpr)
+				if isSel && core.ObjOf(info, sel.X) == ctx && ctx != nil {
+					switch sel.Sel.Name {
+					case "incIndent":
+						level++
+					case "decIndent":
+						level--
+					}
+					return true
+				}
+				takesCtx := false
+				for _, a := range c.Args {
+					if core.ObjOf(info, a) == ctx && ctx != nil {
+						takesCtx = true
+					}
+				}
+				if !takesCtx {
+					return true
+				}
+				n++
+				what := core.Src(p.Fset, c.Fun)
+				role := ""
+				switch {
+				case isSel && sel.Sel.Name == "ToOpcode":
+					if f := core.FieldOf(info, sel.X); f != nil {
+						role = f.Name() // value, key
+					}
+				case strings.HasSuffix(what, "HeaderCode"):
+					role = "header"
+				case strings.HasSuffix(what, "ElemCode"):
+					role = "elem"
+				case strings.HasSuffix(what, "MapKeyCode"):
+					role = "mapkey"
+				case strings.HasSuffix(what, "EndCode"), what == "newOpCode":
+					role = "end"
+				}
+				if role != "" {
+					if _, dup := levels[role]; !dup {
+						levels[role] = level
+						at[role] = c.Pos()
+						names[role] = what
+					}
+				}
+				return true
+			})
+		}
+		if undecided {
+			rc.Unknown(fn+"/indent-levels", fd.Pos(), "incIndent/decIndent inside nested control flow: the level of each opcode could not be computed")
+			continue
+		}
+		rc.Check(level == 0, fn+"/indent-balanced", fd.Pos(), "incIndent and decIndent are balanced (final level %+d)", level)
+		pair := func(a, b string, diff int, why string) {
+			la, okA := levels[a]
+			lb, okB := levels[b]
+			if !okA || !okB {
+				return
+			}
+			rc.Check(la-lb == diff, fmt.Sprintf("%s/%s~%s indent-level", fn, a, b), at[a], "%s is made at compile-time indent level %+d and %s at %+d (wanted a difference of %d): %s", names[a], la, names[b], lb, diff, why)
+		}
+		if _, has := levels["header"]; !has {
+			rc.Unknown(fn+"/header", fd.Pos(), "no header opcode constructor recognised")
+			continue
+		}
+		pair("value", "header", 1, "the element or value program sits one level below the container's brackets")
+		pair("end", "header", 0, "the closing bracket is indented like the opening one")
+		pair("elem", "header", 0, "the first element is indented by the header's level, the later ones by the element opcode's")
+		pair("mapkey", "key", 0, "the interpreters indent the first member of an unordered map by the first key opcode's level and every later member by OpMapKey's")
+		pair("mapkey", "header", 0, "members of a map are indented relative to the map's own level")
+	}
+	if n < 10 {
+		rc.Unknown("encoder/container-ToOpcode", token.NoPos, "found %d opcode-making calls in SliceCode/ArrayCode/MapCode.ToOpcode (confirmed: 13)", n)
+	}
+}
